@@ -235,7 +235,15 @@ func (p *Prog) initTransparency() {
 				break
 			}
 		}
-		if hadLiterals || len(localClosureCalls(f)) == 0 || len(f.AnonFuncs) > 0 {
+		// (an immediately invoked literal — `x := func() T { … }()` — is looked through whatever else the function
+		// contains: it has no name a rule could anchor on, and exactly one call)
+		iife := false
+		if cs := localClosureCalls(f); len(cs) == 1 {
+			if mc, isMC := cs[0].Call.Value.(*ssa.MakeClosure); isMC && mc.Block() == cs[0].Block() && mc.Referrers() != nil && len(*mc.Referrers()) == 1 {
+				iife = true
+			}
+		}
+		if (hadLiterals && !iife) || len(localClosureCalls(f)) == 0 || len(f.AnonFuncs) > 0 {
 			continue
 		}
 		writes := false
